@@ -165,6 +165,26 @@ Theorem C09_too_early_grid : forall availMS atoMS nowMS, 0 < atoMS ->
 Proof. exact tooEarly_spec. Qed.
 Print Assumptions C09_too_early_grid.
 
+(** The request guard of chunked mode (6ca1ef6, answered 400 by the handler before anything else):
+    refused exactly when the offset is negative, infinite or not below the segment duration; a
+    request that passes it has a chunk duration >= 0 (the offset rounded to ms as the code does),
+    positive as soon as the rounded offset leaves one tick.  The theorems above take [0 < C] as a
+    hypothesis; with the guard, [0 <= C] is established by the code and [C = 0] (offset within
+    half a millisecond of the segment duration) falls under C09_chunkdur_nonpositive. *)
+Theorem C09_guard : forall guarded segDurMS,
+  chunkedRefused guarded None segDurMS = guarded /\
+  (forall a, a < 0 \/ segDurMS * 1000 <= a -> chunkedRefused guarded (Some a) segDurMS = guarded) /\
+  (forall a, 0 <= a < segDurMS * 1000 -> chunkedRefused guarded (Some a) segDurMS = false).
+Proof. exact guard_refuses. Qed.
+Print Assumptions C09_guard.
+
+Theorem C09_guard_chunkdur : forall a segDurMS ts,
+  chunkGuardOK (Some a) segDurMS = true -> 0 < ts ->
+  0 <= chunkDurOf segDurMS (roundMilli a) ts /\
+  (1000 <= (segDurMS - roundMilli a) * ts -> 0 < chunkDurOf segDurMS (roundMilli a) ts).
+Proof. exact guard_chunkdur. Qed.
+Print Assumptions C09_guard_chunkdur.
+
 (** chunkSegment cannot fail or panic, whatever the chunk duration (repair 1ce6842; before it a
     chunk duration of 0 - availabilityTimeOffset equal to the segment duration - divided by zero). *)
 Theorem C09_chunkSegment_total : forall fs st newTime newNr newDur C,
